@@ -88,7 +88,7 @@ func TestC05(t *testing.T) {
 		"wholesale replacement of the file by an earlier valid snapshot of the same database is undetectable by design and not checked",
 		"the harness runs with umask 0")
 	tmp := evid.TempDir(t)
-	nHist := r.N(60, 800)
+	nHist := r.N(300, 3000)
 	var wg sync.WaitGroup
 	nw := runtime.NumCPU()
 	for w := 0; w < nw; w++ {
@@ -250,7 +250,7 @@ func makeDB(t *testing.T, path string, key tink.AEAD, rng *rand.Rand, n int) str
 
 func tamper(t *testing.T, r *evid.Run, tmp string) {
 	rng := r.Rand(424242)
-	nFiles := r.N(2, 10)
+	nFiles := r.N(4, 16)
 	type wrapped struct {
 		Version uint32
 		DEK     []byte
